@@ -233,6 +233,8 @@ def run(chk):
                     dotted(n.value.func).split(".")[-1].endswith(("Error", "Critical", "Exception")):
                 chk.note(f"{bm.loc(n)} {q}: exception object is built but not raised ({unparse(n.value)[:60]}); the caller's permutation "
                          "test in reorder_equations still rejects an incomplete order, so the stated behaviour holds (diagnostic only)")
+    from .. import unused as _unused
+    chk.guard(_unused.apply, chk, "C16-R91")
     from .. import args as _args
     chk.guard(_args.apply, chk, "C16-R90", {'incidences', 'sequentials'}, 1)
     chk.assumptions = [
